@@ -54,6 +54,9 @@ pub enum Op {
     Handover { to: u8 },
     /// whale trade that puts a holder at / just below maintenance *at the spot price*, a block 1-15 minutes later, a liquidation attempt
     LagSqueeze { v: u8, target: u8, knob: u16 },
+    /// a withdrawal sized so that the insurance fund advances exactly what the weakest position's liquidation will realise as
+    /// bad debt beyond the engine's prepaid counter; the liquidation follows
+    MatchPrepaid { v: u8, t: u8, knob: u16 },
 }
 
 #[derive(Clone, Debug, Serialize, Deserialize, PartialEq, Eq, Hash)]
@@ -94,6 +97,7 @@ pub struct Weights {
     pub drain: u32,
     pub handover: u32,
     pub lag: u32,
+    pub match_prepaid: u32,
 }
 
 impl Weights {
@@ -128,6 +132,7 @@ impl Weights {
             drain: 0,
             handover: 0,
             lag: 0,
+            match_prepaid: 0,
         }
     }
 }
@@ -348,6 +353,7 @@ pub fn op_strategy(w: &Weights) -> BoxedStrategy<Op> {
         (w.drain, 26),
         (w.handover, 27),
         (w.lag, 28),
+        (w.match_prepaid, 29),
     ]
     .into_iter()
     .filter(|(wt, _)| *wt > 0)
@@ -393,7 +399,8 @@ pub fn op_strategy(w: &Weights) -> BoxedStrategy<Op> {
                 25 => Op::Burst { v, who: s2, n: s1 },
                 26 => Op::Drain { v, t, knob: k1 },
                 27 => Op::Handover { to: s2 },
-                _ => Op::LagSqueeze { v, target: t, knob: k1 },
+                28 => Op::LagSqueeze { v, target: t, knob: k1 },
+                _ => Op::MatchPrepaid { v, t, knob: k1 },
             }
         })
         .boxed()
